@@ -13,8 +13,106 @@ import (
 // Extension points used by the lock-discipline (C09), monitor-invariant and
 // channel-invariant machinery. The base engine leaves them empty.
 
-func (fr *Frame) guardAccess(l *Loc, write bool, pos token.Pos)           {}
-func (fr *Frame) guardMapAccess(m ssa.Value, write bool, pos token.Pos)   {}
+
+// ---------------------------------------------------------------- guarded-by (C09)
+
+// guardFor finds the `guarded T.mu: f...` declaration covering field `field` of struct type n.
+func (fr *Frame) guardFor(n *types.Named, field string) *GuardDecl {
+	if n == nil || n.Obj().Pkg() == nil {
+		return nil
+	}
+	pc := fr.vc.eng.contracts[n.Obj().Pkg().Path()]
+	if pc == nil {
+		return nil
+	}
+	for _, g := range pc.Guarded {
+		if g.Type != n.Obj().Name() || len(g.Props) == 0 {
+			continue
+		}
+		for _, f := range g.Fields {
+			if f == field {
+				return g
+			}
+		}
+	}
+	return nil
+}
+
+// guardCheck emits the lock-discipline obligation for an access to x.field (x of type *n).
+func (fr *Frame) guardCheck(obj *Val, n *types.Named, field string, write bool, pos token.Pos, what string) {
+	g := fr.guardFor(n, field)
+	if g == nil {
+		return
+	}
+	if _, fresh := fr.vc.refLoops[obj.T]; fresh {
+		return // the object was allocated by this very activation: not shared yet
+	}
+	k := 7900 + len(fr.vc.cmds)
+	env := &SpecEnv{fr: fr, vars: map[string]*Val{"self": obj}, cur: fr.st, old: fr.st, pkg: fr.vc.eng.spkgs[n.Obj().Pkg().Path()], nq: &k}
+	mu, err := env.selectField(obj, g.Mutex)
+	if err != nil {
+		return
+	}
+	id := mu.T
+	if mu.S == SIface {
+		id = sx("ival", mu.T)
+	}
+	cond := eq(sel(fr.lockW(), id), "1")
+	kind := "guard.write"
+	if !write {
+		cond = or(cond, sx(">=", sel(fr.lockR(), id), "1"))
+		kind = "guard.read"
+	}
+	p := fr.pos(pos)
+	src := fr.vc.eng.srcLine(p)
+	name := fmt.Sprintf("%s/%s@%s.%s%s#%s", relFuncName(fr.vc.fn), kind, n.Obj().Name(), field, what, hash4(src))
+	if fr.fn != fr.vc.fn {
+		name = fmt.Sprintf("%s/%s@%s:%s.%s%s#%s", relFuncName(fr.vc.fn), kind, relFuncName(fr.fn), n.Obj().Name(), field, what, hash4(src))
+	}
+	fr.vc.oblige(kind, name, p, src, fr.reach, cond, g.Props)
+}
+
+func (fr *Frame) fieldOf(v ssa.Value) (*Val, *types.Named, string) {
+	if u, ok := v.(*ssa.UnOp); ok && u.Op == token.MUL {
+		v = u.X
+	}
+	fa, ok := v.(*ssa.FieldAddr)
+	if !ok {
+		return nil, nil, ""
+	}
+	n := namedOf(fa.X.Type())
+	if n == nil {
+		return nil, nil, ""
+	}
+	st, ok := n.Underlying().(*types.Struct)
+	if !ok {
+		return nil, nil, ""
+	}
+	obj, ok := fr.vals[fa.X]
+	if !ok {
+		return nil, nil, ""
+	}
+	return obj, n, st.Field(fa.Field).Name()
+}
+
+// guardAccess: a load/store of a guarded field.
+func (fr *Frame) guardAccess(l *Loc, write bool, pos token.Pos) {
+	if fr.curAddr == nil {
+		return
+	}
+	obj, n, field := fr.fieldOf(fr.curAddr)
+	if n != nil {
+		fr.guardCheck(obj, n, field, write, pos, "")
+	}
+}
+
+// guardMapAccess: an operation on the contents of a map held in a guarded field.
+func (fr *Frame) guardMapAccess(m ssa.Value, write bool, pos token.Pos) {
+	obj, n, field := fr.fieldOf(m)
+	if n != nil {
+		fr.guardCheck(obj, n, field, write, pos, "[]")
+	}
+}
 
 // onMakeChan: ghost facts about a freshly made channel (e.g. its key) declared in the
 // function's contract as `makechan N assume P(ch)`; sound because the channel is fresh and
@@ -145,6 +243,9 @@ func (fr *Frame) onRecvOk(ch *Val, v *Val, ok Term, pos token.Pos) {
 			continue
 		}
 		fr.vc.assume(fr.reach, imp(genuine, t))
+		if ci.AssumeOnly {
+			fr.vc.globalsUsed = append(fr.vc.globalsUsed, "chanassume "+ci.Elem+": "+ci.Clause.Text)
+		}
 	}
 }
 
@@ -205,7 +306,7 @@ func (fr *Frame) onSend(ch *Val, v *Val, pos token.Pos) {
 		return
 	}
 	for i, ci := range fr.vc.eng.chanInvs(et) {
-		if ci.Open {
+		if ci.Open || ci.AssumeOnly {
 			continue
 		}
 		env := fr.specEnvHere().bind("ch", ch).bind("v", v)
